@@ -38,6 +38,7 @@ type c02Cfg struct {
 	Prev    bool     `json:"prev_configured"`
 	LongLbl bool     `json:"long_labels"`
 	MBLbl   bool     `json:"multibyte_labels,omitempty"`
+	Sep     string   `json:"menu_separator,omitempty"` // engine.Config.MenuSeparator ("" = default ':'); not with MSink
 	Size    uint32   `json:"output_size"`
 	Mode    string   `json:"mode"`
 }
@@ -50,6 +51,13 @@ func (g c02Cfg) labels() (nx, pv string) {
 		return "nextpage", "prevpage"
 	}
 	return "nx", "pv"
+}
+
+func (g c02Cfg) sep() string {
+	if g.Sep == "" {
+		return ":"
+	}
+	return g.Sep
 }
 
 func (g c02Cfg) content() string { return strings.Join(g.Rows, "\n") }
@@ -80,10 +88,10 @@ func (g c02Cfg) cannotFit(rest []string) bool {
 		_ = first
 	}
 	if g.Prev {
-		add("22:" + pv)
+		add("22" + g.sep() + pv)
 	}
 	if g.Next && len(rest) > 1 {
-		add("11:" + nx)
+		add("11" + g.sep() + nx)
 	}
 	return n > int(g.Size)
 }
@@ -102,7 +110,7 @@ func (g c02Cfg) page0Reserved() bool {
 	next := 0
 	if g.Next && len(g.Rows) > 1 {
 		nx, _ := g.labels()
-		next = len("11:"+nx) + 1
+		next = len("11"+g.sep()+nx) + 1
 	}
 	return int(g.Size)-n >= len(g.Rows[0])+next+2
 }
@@ -113,7 +121,7 @@ func (g c02Cfg) ordinary() []string {
 		return nil
 	}
 	for i := 0; i < g.Menu; i++ {
-		l = append(l, fmt.Sprintf("%d:m%d", i, i))
+		l = append(l, fmt.Sprintf("%d%sm%d", i, g.sep(), i))
 	}
 	return l
 }
@@ -196,7 +204,7 @@ func c02Parse(g c02Cfg, out string) (p c02Page, why string) {
 	p.raw = out
 	pre, post := g.prePost()
 	nx, pv := g.labels()
-	nextLine, prevLine := "11:"+nx, "22:"+pv
+	nextLine, prevLine := "11"+g.sep()+nx, "22"+g.sep()+pv
 	if g.MSink {
 		if out == "hd" {
 			return p, "no menu rows at all"
@@ -273,11 +281,11 @@ func c02Walk(g c02Cfg, vis func(pages int, vacuous bool)) (sig, msg string, reqs
 	a := c02App(g)
 	var s *app.Session
 	if g.Mode == "persisted" {
-		s = app.NewSession(a, engine.Config{SessionId: "s1", OutputSize: g.Size}, app.Persisted)
+		s = app.NewSession(a, engine.Config{SessionId: "s1", OutputSize: g.Size, MenuSeparator: g.Sep}, app.Persisted)
 		s.Open = app.MemStore()
 		s.FinishOnError = true
 	} else {
-		s = app.NewSession(a, engine.Config{OutputSize: g.Size}, app.LongLived)
+		s = app.NewSession(a, engine.Config{OutputSize: g.Size, MenuSeparator: g.Sep}, app.LongLived)
 	}
 	isCatch := func(r app.Resp) bool {
 		return strings.Contains(r.Out, "CATCH") && s.St != nil && len(s.St.ExecPath) > 0 && s.St.ExecPath[len(s.St.ExecPath)-1] == "_catch"
@@ -370,11 +378,11 @@ func c02Walk(g c02Cfg, vis func(pages int, vacuous bool)) (sig, msg string, reqs
 	// fresh session positioned on the last page.
 	if n >= 2 {
 		if g.Mode == "persisted" {
-			s = app.NewSession(a, engine.Config{SessionId: "s2", OutputSize: g.Size}, app.Persisted)
+			s = app.NewSession(a, engine.Config{SessionId: "s2", OutputSize: g.Size, MenuSeparator: g.Sep}, app.Persisted)
 			s.Open = app.MemStore()
 			s.FinishOnError = true
 		} else {
-			s = app.NewSession(a, engine.Config{OutputSize: g.Size}, app.LongLived)
+			s = app.NewSession(a, engine.Config{OutputSize: g.Size, MenuSeparator: g.Sep}, app.LongLived)
 		}
 		in = ""
 		for i := 0; i < n; i++ {
@@ -410,11 +418,11 @@ func c02Walk(g c02Cfg, vis func(pages int, vacuous bool)) (sig, msg string, reqs
 	// revisit: page 0, over to the node with the other kind of sink, back, and the whole walk again
 	{
 		if g.Mode == "persisted" {
-			s = app.NewSession(a, engine.Config{SessionId: "s3", OutputSize: g.Size}, app.Persisted)
+			s = app.NewSession(a, engine.Config{SessionId: "s3", OutputSize: g.Size, MenuSeparator: g.Sep}, app.Persisted)
 			s.Open = app.MemStore()
 			s.FinishOnError = true
 		} else {
-			s = app.NewSession(a, engine.Config{OutputSize: g.Size}, app.LongLived)
+			s = app.NewSession(a, engine.Config{OutputSize: g.Size, MenuSeparator: g.Sep}, app.LongLived)
 		}
 		r0 := s.Request([]byte(""))
 		r1 := s.Request([]byte("77"))
